@@ -1,10 +1,14 @@
 package vagg
 
 import (
+	"fmt"
+	"time"
+
 	"github.com/cube2222/octosql/execution"
 	"github.com/cube2222/octosql/execution/nodes"
 	"github.com/cube2222/octosql/octosql"
 	"github.com/cube2222/octosql/zzverif"
+	"github.com/cube2222/octosql/zzverif/vx"
 )
 
 // ---------- row identity (branch-free) on NULL | Int | Time cells ----------
@@ -86,11 +90,10 @@ func AggSet(set int) []int {
 	panic("vagg: bad AGGSET")
 }
 
-// refItem is one input record seen from one group: sign, membership, aggregate input.
+// refItem is one row of the consolidated input seen from one group: membership, aggregate input.
 type refItem struct {
-	sign int64
-	in   bool          // the record's key equals the group's key
-	v    octosql.Value // Int | NULL
+	in bool          // the row's key equals the group's key
+	v  octosql.Value // Int | NULL
 }
 
 func nullableInt(nonNull bool, x int64) octosql.Value {
@@ -100,8 +103,9 @@ func nullableInt(nonNull bool, x int64) octosql.Value {
 	}
 }
 
-// refAgg is the reference value of aggregate kind over the consolidated group: the aggregate of
-// the group's non-NULL inputs (net multiset), NULL when there is none (DESIGN 5.0).
+// refAgg is the reference value of aggregate kind over a group of the consolidated input (a plain
+// multiset of rows): the aggregate of the group's non-NULL inputs, NULL when there is none
+// (DESIGN 5.0). Branch-free.
 func refAgg(kind int, items []refItem) octosql.Value {
 	n := len(items)
 	use := make([]bool, n) // member of the group with a non-NULL input
@@ -110,25 +114,8 @@ func refAgg(kind int, items []refItem) octosql.Value {
 	}
 	var cnt, sum int64
 	for i, it := range items {
-		cnt += zzverif.IteInt64(use[i], it.sign, 0)
-		sum += zzverif.IteInt64(use[i], it.sign*it.v.Int, 0)
-	}
-	// present[i]: value i has a positive net multiplicity in the group
-	// first[i]:   no earlier used item carries the same value
-	present := make([]bool, n)
-	first := make([]bool, n)
-	for i := range items {
-		var mult int64
-		f := true
-		for j := range items {
-			same := zzverif.And(use[j], items[j].v.Int == items[i].v.Int)
-			mult += zzverif.IteInt64(same, items[j].sign, 0)
-			if j < i {
-				f = zzverif.And(f, zzverif.Not(same))
-			}
-		}
-		present[i] = zzverif.And(use[i], mult > 0)
-		first[i] = f
+		cnt += zzverif.IteInt64(use[i], 1, 0)
+		sum += zzverif.IteInt64(use[i], it.v.Int, 0)
 	}
 	nonEmpty := cnt > 0
 	switch kind {
@@ -146,9 +133,12 @@ func refAgg(kind int, items []refItem) octosql.Value {
 	case gCountDistinct, gSumDistinct:
 		var dc, ds int64
 		for i := range items {
-			d := zzverif.And(present[i], first[i])
-			dc += zzverif.IteInt64(d, 1, 0)
-			ds += zzverif.IteInt64(d, items[i].v.Int, 0)
+			first := use[i] // no earlier used item carries the same value
+			for j := 0; j < i; j++ {
+				first = zzverif.And(first, zzverif.Not(zzverif.And(use[j], items[j].v.Int == items[i].v.Int)))
+			}
+			dc += zzverif.IteInt64(first, 1, 0)
+			ds += zzverif.IteInt64(first, items[i].v.Int, 0)
 		}
 		if kind == gCountDistinct {
 			return nullableInt(nonEmpty, dc)
@@ -163,9 +153,9 @@ func refAgg(kind int, items []refItem) octosql.Value {
 			if kind == gMax {
 				better = x > best
 			}
-			take := zzverif.And(present[i], zzverif.Or(zzverif.Not(have), better))
+			take := zzverif.And(use[i], zzverif.Or(zzverif.Not(have), better))
 			best = zzverif.IteInt64(take, x, best)
-			have = zzverif.Or(have, present[i])
+			have = zzverif.Or(have, use[i])
 		}
 		return nullableInt(nonEmpty, best)
 	}
@@ -215,46 +205,65 @@ func (s GroupSpec) Custom(src execution.Node, keyEventTimeIndex int, trigger fun
 	return nodes.NewCustomTriggerGroupBy(protos, exprs, keys, keyEventTimeIndex, src, trigger)
 }
 
-// refRow is the reference output row of the group of input record g, and whether the group exists
-// in the consolidated input (net number of records with that key > 0).
-func (s GroupSpec) refRow(in []execution.Record, g int) (row []octosql.Value, exists bool) {
-	key := s.keyOf(in[g])
-	items := make([]refItem, len(in))
-	var rows int64
-	for j, r := range in {
-		sign := int64(1)
-		if r.Retraction {
-			sign = -1
-		}
-		member := rowEq(s.keyOf(r), key)
-		items[j] = refItem{sign: sign, in: member, v: r.Values[s.ValCol]}
-		rows += zzverif.IteInt64(member, sign, 0)
+// refRow is the reference output row of the group of row g of the consolidated input `net` (a plain
+// multiset of rows: the additions that were never retracted).
+func (s GroupSpec) refRow(net []execution.Record, g int) []octosql.Value {
+	key := s.keyOf(net[g])
+	items := make([]refItem, len(net))
+	for j, r := range net {
+		items[j] = refItem{in: rowEq(s.keyOf(r), key), v: r.Values[s.ValCol]}
 	}
-	row = append(row, key...)
+	row := append([]octosql.Value{}, key...)
 	for _, a := range s.Aggs {
 		row = append(row, refAgg(a, items))
 	}
-	return row, rows > 0
+	return row
 }
 
-// MatchesReference: the consolidated output holds exactly one row per group of the consolidated
-// input, equal to the reference row of that group, and nothing else (branch-free).
-func (s GroupSpec) MatchesReference(in, out []execution.Record) bool {
+// AssertMatches asserts that the consolidated output `out` is the reference grouping of the
+// consolidated input `net`: exactly one row per distinct key of net (NULL is a key), equal to the
+// reference row of that group (tag+"-group-row-once"), and no other row (tag+"-no-other-row").
+func (s GroupSpec) AssertMatches(net, out []execution.Record, tag string) {
+	refs := make([][]octosql.Value, len(net))
 	ok := true
-	refs := make([][]octosql.Value, len(in))
-	exists := make([]bool, len(in))
-	for g := range in {
-		refs[g], exists[g] = s.refRow(in, g)
-		ok = zzverif.And(ok, count(out, refs[g]) == zzverif.IteInt(exists[g], 1, 0))
+	for g := range net {
+		refs[g] = s.refRow(net, g)
+		ok = zzverif.And(ok, count(out, refs[g]) == 1)
 	}
+	zzverif.Assert(ok, tag+"-group-row-once")
+	ok = true
 	for _, o := range out {
 		match := false
-		for g := range in {
-			match = zzverif.Or(match, zzverif.And(exists[g], rowEq(o.Values, refs[g])))
+		for g := range net {
+			match = zzverif.Or(match, rowEq(o.Values, refs[g]))
 		}
 		ok = zzverif.And(ok, count(out, o.Values) == zzverif.IteInt(match, 1, 0))
 	}
-	return ok
+	zzverif.Assert(ok, tag+"-no-other-row")
+}
+
+// NDChangelog returns a valid changelog of exactly L events over rows of `cols` Int|NULL cells
+// (zero event times) like vx.NDChangelog, together with its consolidation `net`: the additions that
+// were never retracted (known concretely because retractions are chosen by position).
+func NDChangelog(name string, L, cols int) (recs, net []execution.Record) {
+	var live []int
+	for i := 0; i < L; i++ {
+		k := zzverif.Choice(fmt.Sprintf("%s.e%d", name, i), 1+len(live))
+		if k == 0 {
+			recs = append(recs, execution.NewRecord(vx.NDRow(fmt.Sprintf("%s.e%d", name, i), cols), false, time.Time{}))
+			live = append(live, len(recs)-1)
+		} else {
+			idx := live[k-1]
+			live = append(live[:k-1:k-1], live[k:]...)
+			vals := make([]octosql.Value, cols)
+			copy(vals, recs[idx].Values)
+			recs = append(recs, execution.NewRecord(vals, true, time.Time{}))
+		}
+	}
+	for _, idx := range live {
+		net = append(net, recs[idx])
+	}
+	return recs, net
 }
 
 // restrictVals assumes every non-NULL aggregate input lies in [0, dom) (dom == 0: no restriction).
